@@ -31,6 +31,10 @@ func VerifH_C13_escape() {
 		return
 	}
 	verifAssertK(v.String() == refEscape(u), "C13-escape-astral", len(u) > 0 && hasSurrogate(u), "B.2.1 escape")
+	if id, okI := verifRun(vm, "s.indexOf('%') >= 0 || unescape(s) === s"); okI {
+		ib, _ := id.ToBoolean()
+		verifAssert(ib, "B.2.2: unescape keeps text without escapes unchanged")
+	}
 	r, ok2 := verifRun(vm, "unescape(escape(s)) === s")
 	if ok2 {
 		b, _ := r.ToBoolean()
